@@ -13,11 +13,12 @@ EXTENDS Fp, Sequences, FiniteSets, TLC, Json
 
 CONSTANTS Cases   \* sequence of [al, be (3), gam (6: xx xy xz yy yz zz), v (3), r0, ep, pr] residues
 
-VARIABLES cs
-vars == <<cs>>
-C == Cases[cs]
-Init == cs \in 1 .. Len(Cases)
-Next == UNCHANGED cs
+VARIABLES cs,   \* index of the point
+          pt    \* the point itself (kept in the state: TLC re-evaluates the substituted constant Cases at every reference)
+vars == <<cs, pt>>
+C == pt
+Init == cs \in 1 .. Len(Cases) /\ pt = Cases[cs]
+Next == UNCHANGED <<cs, pt>>
 Spec == Init /\ [][Next]_vars
 
 Sp == {1, 2, 3}
